@@ -45,9 +45,29 @@ fn explore_with(
 
 /// Texts of several MiB (the generated histories stay far below the shim's 1 MiB refusal limit): every way of
 /// growing, inserting into, shrinking and sharing them, with the refusal limit raised to 256 MiB.
-fn large_text_histories() -> Vec<History> {
+fn large_text_histories(huge: bool) -> Vec<History> {
     use crate::ir::*;
     let mut out = Vec::new();
+    if huge {
+        // texts of 64 and 128 MiB (a size-dependent growth policy would sit at such a round number)
+        for &n in &[(64usize << 20) + 3, 128 << 20] {
+            for variant in 0..3u8 {
+                let mut ops = vec![Op::PushStr { slot: 0, text: Text::Repeat { n, unit: 'H' }, try_: false }];
+                match variant {
+                    0 => ops.push(Op::Reserve { slot: 0, n: Size::Abs(n / 3), try_: true }),
+                    1 => ops.push(Op::PushStr { slot: 0, text: Text::Repeat { n: n / 3, unit: 'g' }, try_: true }),
+                    _ => {
+                        ops.push(Op::Reserve { slot: 0, n: Size::Abs(n / 16), try_: false });
+                        ops.push(Op::PushStr { slot: 0, text: Text::FillAll { unit: 'f' }, try_: false });
+                    }
+                }
+                ops.push(Op::Push { slot: 0, ch: '€', try_: false });
+                ops.push(Op::Truncate { slot: 0, n: Idx::Raw(40), try_: false });
+                ops.push(Op::ShrinkToFit { slot: 0, try_: false });
+                out.push(History { ops, plan: Plan::default() });
+            }
+        }
+    }
     for &n in &[1_048_000usize, 1_200_000, 3_000_000, 12_000_000, 17_000_000] {
         for &add in &[1usize, 70_000, 200_000, 600_000] {
             if n > 4_000_000 && add != 1 && add != 600_000 {
@@ -75,7 +95,7 @@ fn large_text_histories() -> Vec<History> {
                         ops.push(Op::ShrinkToFit { slot: 0, try_: false });
                     }
                     _ => {
-                        ops.push(Op::Extend { slot: 0, it: IterSpec { kind: IterKind::Str, items: vec!["é€𝄞".repeat(add / 9 + 1)], slots: vec![], hint: None, panic_at: None, loose: None, fx: None } });
+                        ops.push(Op::Extend { slot: 0, it: IterSpec { kind: IterKind::Str, items: vec!["é€𝄞".repeat(add / 9 + 1)], slots: vec![], hint: None, panic_at: None, loose: None, fx: None, upper: None } });
                         ops.push(Op::Remove { slot: 0, idx: Idx::Raw(0), try_: false });
                     }
                 }
@@ -121,7 +141,8 @@ fn large_text_histories() -> Vec<History> {
 
 pub fn run_large_texts(prop: &'static str) -> Merged {
     use crate::ir::History;
-    let list: Vec<History> = large_text_histories();
+    // the six 64 / 128 MiB histories only where capacities are the subject (they cost about a second each)
+    let list: Vec<History> = large_text_histories(matches!(prop, "C11" | "C12"));
     run_parallel(|shard| {
         let mut m = Merged::new();
         let mut cur = CurrentFile::open(prop, 64 + shard);
@@ -167,6 +188,8 @@ pub fn c01(tier: Tier, seed: u64) -> Verdict {
             (Profile { max_text: 6000, huge_texts: true, max_ops: 16, ..Profile::base() }, n / 8),
             // callbacks that panic are legal arguments too: String is driven through the same panicking call
             (Profile { max_ops: 20, ..Profile::panics() }, n / 8),
+            // iterators whose size hints are wrong in either direction are legal arguments as well
+            (Profile { max_ops: 16, lying_hints: true, w_extend: 26, w_convert: 10, ..Profile::base() }, n / 8),
         ],
         |c| c.tags.contains("transition") && c.tags.contains("mut_non_inline"),
         "histories generated by proptest (weighted operation grammar over 6 slots, texts biased to the 16-byte limit, mixed UTF-8 widths); non-trivial = history with >= 1 storage-state transition and >= 1 mutator applied to a non-inline handle; distinct = distinct history digests",
